@@ -13,7 +13,7 @@ CONSTANTS Keys,
 
 VARIABLE ent       \* ent[k] : function from nodes to Tomb (0) or a value id > 0
 
-kvvars == <<nn, par, kids, br, lk, kind, rp, uid, head, last, ent>>
+kvvars == <<nn, par, kids, br, lk, kind, rp, uid, head, dead, last, ent>>
 
 KVInit == Init /\ ent = [k \in Keys |-> <<>>]
 
